@@ -57,13 +57,14 @@ type wpRun struct {
 	served     map[int]int    // WorkerFunc invocations per connection
 	closed     map[int]int    // Close calls per connection
 	states     map[int]string // connState calls per connection: C = StateClosed, H = StateHijacked, ? = other
+	ret        map[int]string // what WorkerFunc returned per connection: H = errHijacked, C = anything else
 	running    int32
 	maxRunning int32
 	work       func(id int) error // body of WorkerFunc
 }
 
 func newWpRun() *wpRun {
-	return &wpRun{served: map[int]int{}, closed: map[int]int{}, states: map[int]string{}}
+	return &wpRun{served: map[int]int{}, closed: map[int]int{}, states: map[int]string{}, ret: map[int]string{}}
 }
 
 func (h *wpRun) workerFunc(c net.Conn) error {
@@ -79,6 +80,13 @@ func (h *wpRun) workerFunc(c net.Conn) error {
 		}
 	}
 	err := h.work(cc.id)
+	h.mu.Lock()
+	if err == fasthttp.VerifErrHijacked {
+		h.ret[cc.id] += "H"
+	} else {
+		h.ret[cc.id] += "C"
+	}
+	h.mu.Unlock()
 	atomic.AddInt32(&h.running, -1)
 	return err
 }
@@ -247,6 +255,9 @@ func (h *wpRun) connFate(id int, rejected bool) (render string, viol string) {
 		return r, fmt.Sprintf("conn-served-twice: conn %d handed to WorkerFunc %d times", id, sv)
 	case len(st) != 1 || st == "?":
 		return r, fmt.Sprintf("conn-terminal: conn %d has terminal states %q (want exactly one of closed/hijacked)", id, st)
+	case h.ret[id] != "" && st != h.ret[id]:
+		want := map[string]string{"H": "hijacked (WorkerFunc returned errHijacked)", "C": "closed (WorkerFunc did not return errHijacked)"}[h.ret[id]]
+		return r, fmt.Sprintf("conn-terminal-mismatch: conn %d must end as %s, the pool reported %q and called Close %d times", id, want, st, cl)
 	case st == "C" && cl != 1:
 		return r, fmt.Sprintf("conn-terminal: conn %d reported closed but Close called %d times", id, cl)
 	case st == "H" && cl != 0:
